@@ -161,41 +161,43 @@ class Check:
         )
 
     def calibrate_depth(self) -> None:
-        """Depth probes (sim/synth.py): the smallest M for which `deep<M>` runs out of stack in a
-        pristine interpreter; `deep<M+5>` (fails alone) and `deep<M-6>` (completes alone) join
+        """Depth probes (sim/synth.py): the smallest D for which `deep<D>` runs out of stack in a
+        pristine interpreter; `deep<D+5>` (fails alone) and `deep<D-6>` (completes alone) join
         ctx.deep, the contracts generators analyse after faults and rejected builds."""
         assert self.refs is not None
 
-        def fails(m: int) -> Optional[bool]:
-            r = self.refs.refs.get(("single", "deep%03d" % m))
+        def cid(d: int) -> str:
+            return "deep%04d" % d
+
+        def fails(d: int) -> Optional[bool]:
+            r = self.refs.refs.get(("single", cid(d)))
             if r is None or r.get("outcome") == "unavailable":
                 return None
             if r.get("outcome") != "ok":
                 return "RecursionError" in str(r.get("exc"))
-            return any(len(d) > 2 and "RecursionError" in str(d[2]) for d in r.get("obs", {}).get("dets", []))
+            return any(len(x) > 2 and "RecursionError" in str(x[2]) for x in r.get("obs", {}).get("dets", []))
 
-        coarse = list(range(6, 200, 8))
-        for m in coarse:
-            self.refs.need(("single", "deep%03d" % m))
-        self.refs.compute(timeout=600, alt_pct=0)
-        hi = next((m for m in coarse if fails(m)), None)
+        def first_failing(cands: List[int]) -> Optional[int]:
+            for d in cands:
+                self.refs.need(("single", cid(d)))
+            self.refs.compute(timeout=600, alt_pct=0)
+            return next((d for d in cands if fails(d)), None)
+
+        coarse = list(range(600, 1800, 48))
+        hi = first_failing(coarse)
         if hi is None or hi == coarse[0]:
-            log("[ref] depth probes not calibrated (no M in range runs out of stack)")
+            log("[ref] depth probes not calibrated (no D in range runs out of stack)")
             return
-        for m in range(hi - 7, hi):
-            self.refs.need(("single", "deep%03d" % m))
-        self.refs.compute(timeout=600, alt_pct=0)
-        mstar = next((m for m in range(hi - 7, hi + 1) if fails(m)), hi)
-        probes = ["deep%03d" % (mstar + 5), "deep%03d" % (mstar - 6)]
-        for c in probes:
-            self.refs.need(("single", c))
-        self.refs.compute(timeout=600, alt_pct=0)
+        hi = first_failing(list(range(hi - 42, hi + 1, 6))) or hi
+        mstar = first_failing(list(range(hi - 5, hi + 1))) or hi
+        probes = [cid(mstar + 5), cid(mstar - 6)]
+        first_failing([mstar + 5, mstar - 6])
         if fails(mstar + 5) is not True or fails(mstar - 6) is not False:
-            log("[ref] depth probes not calibrated (not monotone around M*)")
+            log("[ref] depth probes not calibrated (not monotone around D*)")
             return
         self.ctx.deep.extend(probes)
         self.ctx.depth_probes = probes
-        self.stats["depth_probes"] = {"M_star": mstar, "fails_alone": probes[0], "completes_alone": probes[1]}
+        self.stats["depth_probes"] = {"D_star": mstar, "fails_alone": probes[0], "completes_alone": probes[1]}
 
     def site_tables(self) -> None:
         """Fault-free tracing pass: which tealer functions does an operation enter, how often."""
